@@ -1,6 +1,7 @@
 import LenaModel.DriverUtil
 import LenaModel.Model.C18
 import LenaModel.Model.C18Split
+import LenaModel.Model.C18Multi
 import LenaModel.Model.C18Ctx
 import LenaModel.Model.C18Spec
 import LenaModel.Model.C18Exc
@@ -18,6 +19,9 @@ import LenaModel.Model.C18Exc
         (Source(src, *outer, Split([Sequence(*branch)], bufsize))())  ->  like run, without "ref"
   src and map elements may carry "rk": "exc"|"kbd"|"sysexit"|"base"|"genexit" (class of the exception they raise);
   {"op":"plant","c":id,"what":"empty"|"tmp"}: a foreign empty cache file / a stale temporary file
+  a splitrun may carry "pre","post": further members of the Split before / after Sequence(*branch):
+    {"k":"seq","els":[el,…]} | {"k":"fc","a":a} | {"k":"fr","a":a}   (Model/C18Multi.lean; the Split must read the whole flow)
+  bufrule trees: "FC" / "FR" are members of type fill_compute / fill_request (leaves)
 `take = null` becomes a demand that exceeds every flow the pipeline can produce. -/
 open Lean Lena.Drv Lena.C18
 
@@ -151,7 +155,7 @@ def runObs (rcl : RaiseClasses) (nc : Nat) (w : World) (r : RunSpec) : World × 
       ("evafter", ofOpt (fun (pc : Nat × Nat) => Json.bool (d.evs.all (evAfterB pc.1))) (lastFilled w.fs 0 r.els))]),
     ("ref", Json.mkObj [("vals", ofIntList ref.vals), ("exc", ofOpt (fun e => Json.str (excName e)) ref.exc)])])
 
-def parseSplitRun (nb V nc : Nat) (fs : FS) (j : Json) : Option SplitRunSpec := do
+def parseSplitRun (nb V nc : Nat) (fs : FS) (j : Json) (extra : Nat := 0) : Option SplitRunSpec := do
   let sj := getD j "src"
   let vals ← intList? (getD sj "vals")
   let r ← optNat (getD sj "raise")
@@ -164,8 +168,41 @@ def parseSplitRun (nb V nc : Nat) (fs : FS) (j : Json) : Option SplitRunSpec := 
   let take ← optNat (getD j "take")
   let fin ← str? (getD j "fin")
   let s : SrcSpec := ⟨vals, r⟩
-  let big := bigDemand nc fs s
+  -- (`extra` = number of further members of the Split: each yields at most as many values as a branch, plus one)
+  let big := bigDemand nc fs s + extra
   pure ⟨s, outer, branch, bufsize, take.getD (big * big + 1), fin == "leak"⟩
+
+def parseMember (j : Json) : Option Member :=
+  match str? (getD j "k") with
+  | some "seq" => do
+    let els ← (arr? (getD j "els")).bind (fun a => a.toList.mapM parseEl)
+    pure (.seq els)
+  | some "fc" => (int? (getD j "a")).map .fc
+  | some "fr" => (int? (getD j "a")).map .fr
+  | _ => none
+
+def parseMembers (j : Json) (k : String) : Option (List Member) :=
+  match arr? (getD j k) with
+  | some a => a.toList.mapM parseMember
+  | none => some []
+
+def Member.els : Member → List ElSpec
+  | .seq els => els
+  | _ => []
+
+/-- a Split with several members (it must read the whole flow at once: otherwise the request is refused) -/
+def multiObs (rcl : RaiseClasses) (nc : Nat) (w : World) (r : SplitRunSpec) (pre post : List Member) : Option (World × Json) :=
+  let members := pre ++ [.seq r.branch] ++ post
+  if (effBufsizeMembers r.bufsize members).isSome then none
+  else
+    let (w', d) := runSplitMultiOp w ⟨r.src, r.outer, members, r.bufsize, r.demand, r.leak⟩
+    some (w', Json.mkObj [
+      ("out", ofIntList (d.outs.map (·.1))),
+      ("end", Json.str (endNameC rcl d.evs d.end_)),
+      ("ev", ofList evJson d.evs),
+      ("snaps", ofList (fun o => bitsJson nc o.2) d.outs),
+      ("ids", ofList ofNat (cacheIds (r.outer ++ (members.map Member.els).flatten))),
+      ("fs", fsJson nc w'.fs)])
 
 def splitObs (rcl : RaiseClasses) (patched bare : Bool) (nc : Nat) (w : World) (r : SplitRunSpec) : World × Json :=
   let (w', d) := match bare, r.branch with
@@ -185,6 +222,8 @@ partial def parseTree (j : Json) : Option CTree :=
   match str? j with
   | some "C" => some .cache
   | some "L" => some .leaf
+  | some "FC" => some .leaf
+  | some "FR" => some .leaf
   | some _ => none
   | none =>
     let kids (k : String) : Option (List CTree) := (arr? (getD j k)).bind (fun a => a.toList.mapM parseTree)
@@ -198,9 +237,14 @@ partial def parseTree (j : Json) : Option CTree :=
 def stepObs (patched : Bool) (nb V nc : Nat) (w : World) (j : Json) : Option (World × Json) :=
   match str? (getD j "op") with
   | some "splitrun" => do
-    let r ← parseSplitRun nb V nc w.fs j
-    let elsJ := ((arr? (getD j "outer")).getD #[]).toList ++ ((arr? (getD j "branch")).getD #[]).toList
-    pure (splitObs (parseClasses (getD j "src") elsJ) patched ((bool? (getD j "bare")).getD false) nc w r)
+    let pre ← parseMembers j "pre"
+    let post ← parseMembers j "post"
+    let r ← parseSplitRun nb V nc w.fs j (pre.length + post.length)
+    let mJ (k : String) : List Json := (((arr? (getD j k)).getD #[]).toList.map (fun m => ((arr? (getD m "els")).getD #[]).toList)).flatten
+    let elsJ := ((arr? (getD j "outer")).getD #[]).toList ++ mJ "pre" ++ ((arr? (getD j "branch")).getD #[]).toList ++ mJ "post"
+    if pre.isEmpty && post.isEmpty then
+      pure (splitObs (parseClasses (getD j "src") elsJ) patched ((bool? (getD j "bare")).getD false) nc w r)
+    else multiObs (parseClasses (getD j "src") elsJ) nc w r pre post
   | some "run" => do
     let r ← parseRun nb V nc w.fs j
     pure (runObs (parseClasses (getD j "src") ((arr? (getD j "els")).getD #[]).toList) nc w r)
@@ -217,10 +261,15 @@ def stepObs (patched : Bool) (nb V nc : Nat) (w : World) (j : Json) : Option (Wo
     pure (⟨fs', w.leaked⟩, Json.mkObj [("fs", fsJson nc fs')])
   | some "bufrule" => do
     -- `Split(members, bufsize)._bufsize is None` (`Split.__init__`, `_contains_cache`)
-    let members ← (arr? (getD j "members")).bind (fun a => a.toList.mapM parseTree)
+    let mj ← arr? (getD j "members")
+    let trees ← mj.toList.mapM parseTree
+    let ty (m : Json) : MemberTy := match str? m with
+      | some "FC" => .fillCompute
+      | some "FR" => .fillRequest
+      | _ => .sequence
     let bufsize ← optNat (getD j "bufsize")
-    pure (w, Json.mkObj [("none", Json.bool (effBufsizeTree bufsize members).isNone),
-      ("contains", ofList (fun t => Json.bool (containsCache t)) members), ("fs", fsJson nc w.fs)])
+    pure (w, Json.mkObj [("none", Json.bool (effBufsizeTyped bufsize ((mj.toList.map ty).zip trees)).isNone),
+      ("contains", ofList (fun t => Json.bool (containsCache t)) trees), ("fs", fsJson nc w.fs)])
   | some "dropdir" =>
     let rc := (bool? (getD j "rc")).getD false
     some (w, Json.mkObj [("r", Json.str (match dropBlocked rc with
